@@ -23,3 +23,36 @@ def test_c17_ack_of_connect_is_not_answered():
     assert t.sent == []
     p.datagram_received(bytes.fromhex("324200040000"), ("192.0.2.1", 1))  # CONNECT
     assert t.sent == [bytes.fromhex("324200050000")]
+
+
+def _tracker_with_recorder():
+    import sys, os
+    sys.path.insert(0, os.path.dirname(os.path.dirname(os.path.abspath(__file__))))
+    from mc import env  # noqa: F401
+    import checks.c08_tracker as c
+
+    if not c.ALPHA:
+        c.parse_alphabet()
+    from okdmr.dmrlib.transmission.terminal import Terminal
+
+    rec = c.Recorder("t")
+    return c, Terminal(dmrid=1, observers=[rec]), rec
+
+
+def test_c08_data_block_after_voice_header_does_not_end_data():
+    import copy
+
+    c, term, rec = _tracker_with_recorder()
+    for name in ("VH", "R12_0"):
+        term.process_incoming_burst(copy.deepcopy(c.PARSED[name]), 1)
+    assert [(e[0], e[1]) for e in rec.events] in ([("started", "V"), ("ended", "V")], [("started", "V")])
+
+
+def test_c08_short_udp_ip_payload_does_not_raise():
+    import copy
+
+    c, term, rec = _tracker_with_recorder()
+    for name in ("DH_IP1", "R12_0"):
+        term.process_incoming_burst(copy.deepcopy(c.PARSED[name]), 1)
+    assert [(e[0], e[1]) for e in rec.events] == [("started", "D"), ("ended", "D")]
+    assert term.timeslots[1].transmission.type.name == "Idle"
